@@ -219,6 +219,8 @@ var propDigest = harn.Register(&harn.Prop[scen.Case]{Name: "TestDigests", Run: r
 
 var opts = scen.GenOpts{
 	World: world.Opts{MaxFlows: 3, MaxNodes: 5, Languages: []string{"fra", "spa", "kin"}, QueryGroups: true, Voice: true, Background: true, WebhookRefs: true,
+		// tests whose outcome depends on environment settings (number format, location hierarchy): process-wide caches of such settings show
+		CaseBias:    []string{"has_number", "has_number_gt", "has_number_between", "has_number_lt", "has_number_eq", "has_number_gte", "has_state", "has_district", "has_date", "has_date_lt"},
 		WebhookCmds: []string{"casevariant", "casevariant", "json", "true", "false", "true", "null"}, Templates: []string{"@webhook", "@webhook.json.ok", "@(if(webhook.json.ok, 1, 2))", "@trigger.params.flag", "@legacy_extra.code", "@legacy_extra.name", "@(json(legacy_extra))", "@webhook.json.a", "@webhook.json.name", "@(webhook.json.A)", "@(json(webhook.json))", "@webhook.headers", "@(json(results))", "@(json(contact.fields))", "@contact.groups", "@(foo",
 			// several different deprecated context values in one expression (each logs a warning event)
 			"@(results.color.values & results.color.categories)", "@(results.color.categories_localized & results.color.values & legacy_extra)", "@(legacy_extra.name & child.run.status & results.answer.categories)"}},
